@@ -23,6 +23,49 @@ def _dotted_names(e):
     return out
 
 
+def _bump_via_helper(prog, C, st, obj, cell) -> bool:
+    """`obj._helper("la")` where the helper (a private method of C), read with
+    its constant arguments and the class-level name tables, advances `cell`."""
+    import copy
+    from .idioms import is_bump_of
+    from .pymodel import UNKNOWN
+    if not (isinstance(st, ast.Expr) and isinstance(st.value, ast.Call) and
+            isinstance(st.value.func, ast.Attribute) and
+            isinstance(st.value.func.value, ast.Name) and
+            st.value.func.value.id == obj and not st.value.keywords):
+        return False
+    h = prog.lookup(C, st.value.func.attr)
+    if h is None or not h.name.startswith("_") or h.name.startswith("__") or \
+            len(h.params) != len(st.value.args) + 1:
+        return False
+    env = {}
+    for p_, a in zip(h.params[1:], st.value.args):
+        v = prog.static_value(a, C, h.module)
+        if v is UNKNOWN:
+            return False
+        env[p_] = v
+    sn = h.params[0]
+    for s_ in h.node.body:
+        if isinstance(s_, ast.Assign) and len(s_.targets) == 1 and \
+                isinstance(s_.targets[0], ast.Name):
+            v = prog.static_value(s_.value, C, h.module, env)
+            if v is not UNKNOWN and isinstance(v, str):
+                env[s_.targets[0].id] = v
+            continue
+
+        class Fold(ast.NodeTransformer):
+            def visit_Name(self, n):
+                if n.id in env and isinstance(n.ctx, ast.Load) and \
+                        isinstance(env[n.id], str):
+                    return ast.copy_location(ast.Constant(value=env[n.id]), n)
+                if n.id == sn:
+                    return ast.copy_location(ast.Name(id=obj, ctx=n.ctx), n)
+                return n
+        if is_bump_of(Fold().visit(copy.deepcopy(s_)), obj, cell):
+            return True
+    return False
+
+
 def s1(run: Run, prog: Program):
     """Who may write the primary groups + the loader idiom."""
     from .rules_c01 import CacheModel, _k4_groups
@@ -62,7 +105,9 @@ def s1(run: Run, prog: Program):
         i, st = attach[0]
         obj = st.targets[0].value.id
         g = ast.unparse(st.value)
-        nxt = [s_ for s_ in body[i + 1:] if is_bump_of(s_, obj, "_mut_la")]
+        nxt = [s_ for s_ in body[i + 1:] if is_bump_of(s_, obj, "_mut_la")] + \
+            [s_ for s_ in m.node.body if getattr(s_, "lineno", 0) > st.lineno
+             and _bump_via_helper(prog, C, s_, obj, "_mut_la")]
         ok_bump = bool(nxt)
         run.oblige("S1", inst + ":bump", ok_bump, sample={"where": m.where})
         if not ok_bump:
@@ -120,7 +165,9 @@ def s2(run: Run, prog: Program):
             return h.node if h is not None and hn.startswith("_") and \
                 not hn.startswith("__") else None
         m = _copy.copy(m)
-        m.node = resolve_default_idiom(inline_simple_helpers(m.node, _res))
+        from .idioms import expand_kwargs
+        m.node = resolve_default_idiom(inline_simple_helpers(
+            expand_kwargs(m.node, _res), _res))
         ctors = [c for c in ast.walk(m.node) if isinstance(c, ast.Call)
                  and isinstance(c.func, ast.Name) and c.func.id in prog.classes
                  and prog.is_subclass(prog.classes[c.func.id], "Network")]
@@ -314,6 +361,7 @@ def _inlined_setter(prog, net):
 def s3(run: Run, prog: Program):
     """Writer/reader tables agree."""
     consts = []
+    unreadable = []
     netcls = prog.classes.get("Network")
     from .idioms import inline_simple_helpers
     for f in prog.functions():
@@ -389,6 +437,11 @@ def s3(run: Run, prog: Program):
             return None
         for c in ast.walk(fnode):
             if isinstance(c, ast.Call) and isinstance(c.func, ast.Attribute) and \
+                    c.func.attr == "set_attribute_values" and c.args and \
+                    ".vs" in ast.unparse(c.func.value) and names_of(c.args[0]) is None \
+                    and f.cls is not None and prog.is_subclass(f.cls, "Network"):
+                unreadable.append(c)
+            if isinstance(c, ast.Call) and isinstance(c.func, ast.Attribute) and \
                     c.func.attr in ("set_attribute_values", "get_attribute_values") \
                     and c.args and names_of(c.args[0]) is not None:
                 consts.append((f, c.func.attr, names_of(c.args[0]), c.lineno))
@@ -398,79 +451,92 @@ def s3(run: Run, prog: Program):
                 consts.append((f, "in", names_of(c.left), c.lineno))
     run.floor("S3 attribute-name sites", len(consts), 4)
     written = {x for f, k, v, _ in consts if k == "set_attribute_values" for x in v}
-    if len(written) != 1:
+    # attribute names that are computed (a table of (attribute, property) pairs
+    # driving save and the loaders) are not read: the name agreement, the
+    # loaders' test-and-read and save's write condition are then not decided
+    if len(written) != 1 and not unreadable:
         raise AnalysisError(f"Network writes vertex attributes {written}: expected the "
                             f"one node-weight attribute")
-    name = written.pop()
-    for f, k, vs, ln in consts:
-        # a reader may accept several names (older files): the stored one is among them
-        ok = name in vs
-        v = "/".join(vs)
-        run.oblige("S3", f"{f.qualname}:{k}@{ln}", ok, sample={"name": v})
-        if not ok:
-            run.add("S3", f"{f.qualname}/attribute-name/{v}", f"{f.module.relpath}:{ln}",
-                    f"{f.qualname} looks for the vertex attribute '{v}' but save() "
-                    f"stores node weights as '{name}': saved node weights are never "
-                    f"found again")
-    # each loader tests and then reads the attribute
-    def closure(m):
-        """m and the private helpers it calls (obj._h(...), Cls._h(...), _h(...)),
-        transitively: a loader may delegate the test-and-read to one helper"""
-        seen, work = [m], [m]
-        while work:
-            g = work.pop()
-            for c in ast.walk(g.node):
-                if not isinstance(c, ast.Call):
-                    continue
-                nm = c.func.attr if isinstance(c.func, ast.Attribute) else \
-                    c.func.id if isinstance(c.func, ast.Name) else ""
-                if not nm.startswith("_") or nm.startswith("__"):
-                    continue
-                for C_ in ([m.cls] if m.cls is not None else []):
-                    h = prog.lookup(C_, nm)
-                    if h is not None and h not in seen:
-                        seen.append(h)
-                        work.append(h)
-        return seen
-    for cname, mname in LOADERS:
-        m = prog.classes[cname].methods[mname]
-        cl = closure(m)
-        kinds = {k for f, k, v, _ in consts if any(f is g for g in cl)}
-        ok = {"in", "get_attribute_values"} <= kinds
-        run.oblige("S3", f"{cname}.{mname}:restores-node-weights", ok)
-        if not ok:
-            run.add("S3", f"{cname}.{mname}/node-weights", m.where,
-                    f"{cname}.{mname} does not restore the saved node weights")
-    # save(): the node weights are written whenever they exist
-    net = prog.classes["Network"]
-    sv = net.methods["save"]
-    s3_fresh(run, prog, net, sv)
-    for c in ast.walk(sv.node):
-        if isinstance(c, ast.Call) and isinstance(c.func, ast.Attribute) and \
-                c.func.attr == "set_attribute_values":
-            conds = []
-            from .idioms import inline_locals
-            for st in ast.walk(sv.node):
-                if isinstance(st, ast.If) and any(x is c for b_ in st.body
-                                                  for x in ast.walk(b_)):
-                    t_ = inline_locals(sv.node, st.test)
-                    parts = t_.values if isinstance(t_, ast.BoolOp) and \
-                        isinstance(t_.op, ast.And) else [t_]
-                    conds.extend(ast.unparse(p_) for p_ in parts)
-            # the only admissible condition is "there are node weights": anything
-            # else (the graph already carries the attribute, the weights are all
-            # one, ...) leaves an older attribute value in the file
-            bad = [x for x in conds if not re.fullmatch(
-                r"(self\.)?_?node_weights is not None", x)]
-            ok = not bad
-            run.oblige("S3", "Network.save:unconditional-write", ok, sample={
-                "conditions": conds})
+
+    def _name_part(name):
+        for f, k, vs, ln in consts:
+            # a reader may accept several names (older files): the stored one is among them
+            ok = name in vs
+            v = "/".join(vs)
+            run.oblige("S3", f"{f.qualname}:{k}@{ln}", ok, sample={"name": v})
             if not ok:
-                run.add("S3", "Network.save/conditional-write",
-                        f"{sv.module.relpath}:{c.lineno}",
-                        f"Network.save writes the node weights only if {bad}: a graph "
-                        f"that already carries the attribute (loaded or saved before) "
-                        f"keeps the *old* weights in the file")
+                run.add("S3", f"{f.qualname}/attribute-name/{v}", f"{f.module.relpath}:{ln}",
+                        f"{f.qualname} looks for the vertex attribute '{v}' but save() "
+                        f"stores node weights as '{name}': saved node weights are never "
+                        f"found again")
+        # each loader tests and then reads the attribute
+        def closure(m):
+            """m and the private helpers it calls (obj._h(...), Cls._h(...), _h(...)),
+            transitively: a loader may delegate the test-and-read to one helper"""
+            seen, work = [m], [m]
+            while work:
+                g = work.pop()
+                for c in ast.walk(g.node):
+                    if not isinstance(c, ast.Call):
+                        continue
+                    nm = c.func.attr if isinstance(c.func, ast.Attribute) else \
+                        c.func.id if isinstance(c.func, ast.Name) else ""
+                    if not nm.startswith("_") or nm.startswith("__"):
+                        continue
+                    for C_ in ([m.cls] if m.cls is not None else []):
+                        h = prog.lookup(C_, nm)
+                        if h is not None and h not in seen:
+                            seen.append(h)
+                            work.append(h)
+            return seen
+        for cname, mname in LOADERS:
+            m = prog.classes[cname].methods[mname]
+            cl = closure(m)
+            kinds = {k for f, k, v, _ in consts if any(f is g for g in cl)}
+            ok = {"in", "get_attribute_values"} <= kinds
+            run.oblige("S3", f"{cname}.{mname}:restores-node-weights", ok)
+            if not ok:
+                run.add("S3", f"{cname}.{mname}/node-weights", m.where,
+                        f"{cname}.{mname} does not restore the saved node weights")
+        # save(): the node weights are written whenever they exist
+        net = prog.classes["Network"]
+        sv = net.methods["save"]
+        s3_fresh(run, prog, net, sv)
+        for c in ast.walk(sv.node):
+            if isinstance(c, ast.Call) and isinstance(c.func, ast.Attribute) and \
+                    c.func.attr == "set_attribute_values":
+                conds = []
+                from .idioms import inline_locals
+                for st in ast.walk(sv.node):
+                    if isinstance(st, ast.If) and any(x is c for b_ in st.body
+                                                      for x in ast.walk(b_)):
+                        t_ = inline_locals(sv.node, st.test)
+                        parts = t_.values if isinstance(t_, ast.BoolOp) and \
+                            isinstance(t_.op, ast.And) else [t_]
+                        conds.extend(ast.unparse(p_) for p_ in parts)
+                # the only admissible condition is "there are node weights": anything
+                # else (the graph already carries the attribute, the weights are all
+                # one, ...) leaves an older attribute value in the file
+                bad = [x for x in conds if not re.fullmatch(
+                    r"(self\.)?_?node_weights is not None", x)]
+                ok = not bad
+                run.oblige("S3", "Network.save:unconditional-write", ok, sample={
+                    "conditions": conds})
+                if not ok:
+                    run.add("S3", "Network.save/conditional-write",
+                            f"{sv.module.relpath}:{c.lineno}",
+                            f"Network.save writes the node weights only if {bad}: a graph "
+                            f"that already carries the attribute (loaded or saved before) "
+                            f"keeps the *old* weights in the file")
+
+    net = prog.classes["Network"]
+    if len(written) == 1 and not unreadable:
+        _name_part(next(iter(written)))
+    else:
+        run.unknowns.append("S3: vertex attribute names are computed at "
+                            f"{unreadable[0].lineno if unreadable else '?'} (table-driven "
+                            "persistence); the agreement of save() and the loaders on "
+                            "the node-weight attribute is not decided")
     # undirected bookkeeping (private helpers of the setter stand for their code)
     st_ = _inlined_setter(prog, net)
     def _halves_links(n):
@@ -538,6 +604,27 @@ def s3(run: Run, prog: Program):
                             [ast.unparse(k.value) for k in c.keywords]
                         if any(p_.endswith("directed") or p_ in flags for p_ in passed):
                             ok = True
+        if not ok and fn.name != "set_edge_list":
+            # delegation: the topology goes to the edge-list constructor
+            # (`Network(edge_list=..., directed=<the graph's flag>)`), whose own
+            # mirroring is the other instance of this rule
+            from .idioms import expand_kwargs
+            fx = expand_kwargs(fn.node)
+            for c in ast.walk(fx):
+                if isinstance(c, ast.Call) and isinstance(c.func, ast.Name) and \
+                        c.func.id in prog.classes and \
+                        prog.is_subclass(prog.classes[c.func.id], "Network"):
+                    kws = {k.arg: k.value for k in c.keywords if k.arg}
+                    if "edge_list" in kws and "adjacency" not in kws and \
+                            "directed" in kws and (
+                                "directed" in ast.unparse(kws["directed"]) or
+                                ast.unparse(kws["directed"]) in flags or any(
+                                    isinstance(a_, ast.Assign) and
+                                    isinstance(a_.targets[0], ast.Name) and
+                                    a_.targets[0].id == ast.unparse(kws["directed"]) and
+                                    "directed" in ast.unparse(a_.value)
+                                    for a_ in ast.walk(fx))):
+                        ok = True
         run.oblige("S3", f"{fn.qualname}:symmetrise", ok)
         if not ok:
             run.add("S3", f"{fn.qualname}/symmetrise", fn.where,
